@@ -418,7 +418,7 @@ fn scenario(rng: &mut StdRng, sc: usize, out: Box<dyn std::io::Write>, kv: &Hash
     let interval = *[3u64, 4, 5][..].get(rng.gen_range(0..3)).unwrap();
     let npeers = rng.gen_range(1..=3usize);
     let built = super::filtersync::build_tx_world(rng, pow, main_len, 0, 1, 3);
-    let cfg = Config { last_n, max_outbound: npeers as u32, interval, blocks_in_transit: rng.gen_range(1..=4) };
+    let cfg = Config { last_n, max_outbound: npeers as u32, interval, blocks_in_transit: rng.gen_range(1..=4), ..Default::default() };
     let leaf = built.leaves[0];
     let mut sim: Sim = new_sim(built.chain, cfg, npeers, out, &format!("hostile-{}", sc), vec!["hostile"]);
     let nleaf = sim.chain.blocks[leaf].num;
